@@ -61,6 +61,9 @@ type env struct {
 	compassSCID uint64 // smart contract with an in-flight deployment record
 	rootPlain   sdk.Context
 	rootGrant   sdk.Context
+	rootTake    sdk.Context // rootPlain + the attacker's own siblings of the victim's resources (takeover pass)
+	aPendingTx  uint64
+	aContractID uint64
 	setupLog    []string
 	stores      map[string]*storetypes.KVStoreKey
 	principals  []*principal
@@ -273,11 +276,14 @@ func (e *env) setup() {
 
 	// a contract always has an account
 	w.App.AccountKeeper.SetAccount(ctx, w.App.AccountKeeper.NewAccountWithAddress(ctx, e.C.Acc))
+	// ... and this one holds funds (its deployer sent it some), so that it can act for itself
+	must(w.App.BankKeeper.SendCoins(ctx, e.A.Acc, e.C.Acc, sdk.NewCoins(sdk.NewInt64Coin(world.BondDenom, 1_000_000_000))))
 
 	e.rootPlain = ctx
 	g := world.Fork(ctx)
 	must(w.App.FeeGrantKeeper.GrantAllowance(g, e.B.Acc, e.A.Acc, &feegrant.BasicAllowance{}))
 	e.rootGrant = g
+	e.setupTakeover()
 }
 
 func (e *env) proof() *codectypes.Any {
